@@ -5,7 +5,7 @@ package head
 // Contracts for the deductive checks in /verif (comment-only; no code).
 // Property C03: a chain head is accepted only when signed by the expected publisher.
 
-//@ nonnil ErrBadSignature ErrNoSignature ErrNoPubkey
+//@ nonnil ErrBadSignature ErrNoSignature ErrNoPubkey SignedHeadPrototype
 
 // What is signed: the CID bytes followed by the topic, if there is one.
 //@ spec func headPayload(s val) int = bcat(cidBytesOf(str(as(s.Head, "cidlink.Link").Cid.str)), ite(s.Topic == nil, bempty(), ite(len(*s.Topic) == 0, bempty(), content(*s.Topic))))
@@ -41,6 +41,8 @@ package head
 // is a CID link is bindnode/dag-json behaviour (ASSUMED).
 //@ func Decode
 //@   property C03
+//@   at call NewBuilder#1: after assume result != nil
+//@   at call Build#1: after assume result != nil
 //@   ensures result1 == nil ==> result0 != nil
 //@   ensures result1 != nil ==> result0 == nil
 //@   ensures-assumed result1 == nil ==> result0.Head != nil && typeis(result0.Head, "cidlink.Link")
@@ -48,5 +50,6 @@ package head
 //@ func UnwrapSignedHead
 //@   property C03
 //@   requires node != nil
+//@   at call NewBuilder#1: after assume result != nil
 //@   ensures result1 == nil ==> result0 != nil
 //@   ensures result1 != nil ==> result0 == nil
